@@ -50,8 +50,8 @@ def check(ctx):
     lp = G.need(_framing.loops_over(G, "self.logs"), "loop over self.logs")
     fc = G.need(G.call_nodes("self.flush"), "self.flush() in Logger.log")
     fst = [n for n in G.stores("self.flushStamp") if G.cfg.reachable(fc[0].id) & {n.id}]
-    t = [x for x in G.cfg.nodes if x.kind == "test" and
-         src(G.sym(x.ast.test, x)).replace("(", "").replace(")", "") == "self.store.stamp - self.flushStamp >= self.flushPeriod"]
+    from ..rules import _atom, formula_equiv as _feq
+    t = [x for x in G.cfg.nodes if x.kind == "test" and _feq(_atom(G.sym(x.ast.test, x)), "self.store.stamp - self.flushStamp >= self.flushPeriod")]
     ok = bool(t) and G.dominated_by_edge(fc, t[0], "T") and not (G.cfg.reachable(G.cfg.entry.id, removed_edges=G.cfg.edges_from(lp[0].id, "done")) & {t[0].id})
     good = [n for n in G.stores("self.flushStamp") if G.dominated_by_edge([n], t[0], "T")] if t else []
     ok = ok and bool(good) and all(G.dominated([n], fc) for n in good)
@@ -143,3 +143,26 @@ def check(ctx):
     t = src(oc)
     ctx.check("os.O_EXCL | os.O_CREAT" in t.replace("os.O_CREAT | os.O_EXCL", "os.O_EXCL | os.O_CREAT") and "errno.EEXIST" in t and "open(filename, openMode)" in t,
               "T9-paths", oc, "ocfn: O_EXCL|O_CREAT first, EEXIST -> open(filename, openMode)", "atomic create-or-open without truncating an existing file")
+    header_always_built(ctx)
+
+
+def header_always_built(ctx):
+    """Log.cycle starts every new main file with self.header; that text exists only after buildHeader() ran.  prepare() is the
+    one place that runs it, once per (re)start: it must do so on every path - also when this run's own header is not written
+    because the file is being reused."""
+    from ..rules import path_condition, formula_equiv
+    ctx.rule("T2-header", "Log.prepare calls buildHeader() unconditionally; Log.cycle writes self.header into the new main file")
+    pr = ctx.cls("logging", "Log").own_method("prepare")
+    V = FuncView(ctx, pr)
+    bh = V.need(V.call_nodes("self.buildHeader"), "self.buildHeader() in Log.prepare")
+    from ..rules import local_condition
+    # no condition decided after the last point all paths share, and no normal exit of prepare() without it
+    ok = formula_equiv(("or", [local_condition(V, n) for n in bh]), "True") and \
+        V.cfg.exit.id not in V.cfg.reachable(V.cfg.entry.id, removed_nodes=[n.id for n in bh], labels_block=("exc",))
+    ctx.check(ok, "T2-header", bh[0].ast, "Log.prepare builds the header on every path",
+              "a Log that reuses an existing file (second life on the same directory) does not write its header now - but it still "
+              "rotates later: every new main file (and every rotate copy made from it) then starts with an empty header")
+    cy = ctx.cls("logging", "Log").own_method("cycle")
+    C = FuncView(ctx, cy)
+    wr = [n for n, c in C.attr_calls(("write",)) if c.args and src(C.sym(c.args[0], n)) == "self.header"]
+    ctx.check(bool(wr), "T2-header", cy, "Log.cycle writes self.header into the reopened main file", "a rotated-in main file must start with the header")
